@@ -280,10 +280,14 @@ def run_C13(tier, seed, t0):
         for c in ((False, True) if not m.startswith('c.') else (False,)):
             specs.append(('harness.equiv', 'equiv_task', ('C13', m, w, 'imm(reg)', c)))
     specs.append(('harness.pipe', 'regtable_task', ()))
+    from .lexsym import lexsym_specs, BASES, KEYWORDS
+    lex = lexsym_specs(tier)
+    specs += lex
     res = pmap(specs)
     return finish('C13', tier, seed, res, t0,
                   bounds=dict(crosshair_conditions=ncond,
                               lexer='per line kind (instruction, label, constant, bytes, pack, dw, align, lw imm(reg), %hi): trailing comment with symbolic text (<= 8 characters, no newline), indentation (<= 6 spaces, <= 3 tabs), separator runs (<= 2 each of space, comma, tab)',
+                              lexer_symbolic_text='engine E1 on the real lex_tokens, %d tasks: base lines %s; trailing / tight / whole-line comment of %d arbitrary characters (path budget 4000 per task, exhaustion is a note), comments starting with a directive word (%s) followed by 2 arbitrary characters, indentation of 3 symbolic blanks, 2 symbolic separator characters' % (len(lex), ', '.join(BASES), 12 if tier == 'thorough' else 8, ', '.join(KEYWORDS)),
                               program='an 11-line program with every item kind: blank / whitespace-only lines and whole-line comments (concrete text) inserted at each of the 12 positions with symbolic counts, each line indented by symbolic counts and given a trailing comment',
                               base_offset='imm(reg) vs reg, imm for the 11 base+offset mnemonics with symbolic operands (%s), compression off and on' % _wtext(w),
                               registers='finite table: every spelling of REGISTERS and 0x/0b/0o numerals in each operand position',
@@ -302,9 +306,12 @@ def run_C14(tier, seed, t0):
     kbits = 40 if tier == 'thorough' else 34
     specs = [('harness.include', 'include_task', (t, kbits)) for t in TREES]
     specs += [('harness.data', 'include_bytes_task', (k,)) for k in range(3)]
+    from .history import BY_PROP as _HIST
+    specs += [('harness.history', 'history_task', ('C14', sn, 40 if tier == 'thorough' else 34)) for sn in _HIST['C14']]
     res = pmap(specs)
     return finish('C14', tier, seed, res, t0,
-                  bounds=dict(trees='depth 2 (include in the middle) and depth 3 (include first and last, quoted names, ../ in the name)',
+                  bounds=dict(histories='two assemble() calls in one process with the file system edited in between, second call compared with the same call in a fresh process for every 34/40-bit K0, both modes: ' + ', '.join(_HIST['C14']),
+                              trees='depth 2 (include in the middle) and depth 3 (include first and last, quoted names, ../ in the name)',
                               candidates='the included file exists in any subset of {next to the including file, -i directory, next to the main file, working directory} (symbolic bits)',
                               working_directory='one of 4 (symbolic selector)', operands='one symbolic %d-bit constant used in main and included files' % kbits,
                               include_bytes='three include_bytes settings shared with C10'),
@@ -325,9 +332,12 @@ def run_C15(tier, seed, t0):
                 pass
             for c in (False, True):
                 specs.append(('harness.errors', 'error_task', (f[0], pos, where, c)))
+    from .history import BY_PROP as _HIST
+    specs += [('harness.history', 'history_task', ('C15', sn, 40 if tier == 'thorough' else 34)) for sn in _HIST['C15']]
     res = pmap(specs)
     return finish('C15', tier, seed, res, t0,
-                  bounds=dict(fault_lines=len(FAULTS), placements='first / middle / last line of a 10-line program and inside an included file' if tier != 'thorough' else 'every position of a 10-line program, as text and as file, and three positions of an included file',
+                  bounds=dict(histories='two assemble() calls in one process with the file system edited in between, second call compared with the same call in a fresh process for every 34/40-bit K0, both modes: ' + ', '.join(_HIST['C15']),
+                              fault_lines=len(FAULTS), placements='first / middle / last line of a 10-line program and inside an included file' if tier != 'thorough' else 'every position of a 10-line program, as text and as file, and three positions of an included file',
                               symbolic='the faulty operand ranges over all values outside its legal set (signed 40-bit / 12-bit); the other operands (an I-immediate and a li value) are symbolic legal values',
                               modes='compression off and on'),
                   stubs=STUBS_ASM + ['virtual file system'],
@@ -345,9 +355,12 @@ def run_C16(tier, seed, t0):
               if q[0] in ('ok_then_ok', 'fail_then_ok', 'same_names', 'compress_then_plain')]
     specs += [('harness.purity', 'incdirs_task', (s,)) for s in ('B', 'C')]
     specs += [('harness.purity', 'hashseed_task', (t_,)) for t_ in ('depth2_middle', 'twice_and_last')]
+    from .history import BY_PROP as _HIST
+    specs += [('harness.history', 'history_task', ('C16', sn, 40 if tier == 'thorough' else 34)) for sn in _HIST['C16']]
     res = pmap(specs)
     return finish('C16', tier, seed, res, t0,
-                  bounds=dict(frame='%d symbolic programs x 2 modes: after every path (failing ones included) the structural fingerprint of everything reachable from the module (tables, partials, class dicts, function defaults, closures) is unchanged and holds no symbolic value' % len(PROGRAMS),
+                  bounds=dict(histories='two assemble() calls in one process with the file system edited in between, second call compared with the same call in a fresh process for every 34/40-bit K0, both modes: ' + ', '.join(_HIST['C16']),
+                              frame='%d symbolic programs x 2 modes: after every path (failing ones included) the structural fingerprint of everything reachable from the module (tables, partials, class dicts, function defaults, closures) is unchanged and holds no symbolic value' % len(PROGRAMS),
                               sequences='%d two-call histories x 4 dictionary-passing modes (fresh, dictionaries to the first call only, no dictionaries at all, the same dictionary objects for both calls): second result compared with the result of the second program alone for all values of both programs\' independent symbols (product query); plus two projects assembled with one shared include_dirs list over a virtual file system (the caller\'s list must be unchanged, the second project\'s result must not depend on the first)' % len(SEQS)),
                   stubs=STUBS_ASM,
                   assumptions=['inductive step: if one call from the import-time state leaves the state unchanged, histories of any length do'] + STUBS_ASM,
@@ -355,18 +368,20 @@ def run_C16(tier, seed, t0):
 
 
 def run_C17(tier, seed, t0):
-    from .cli import PROGRAMS, ARGVS
+    from .cli import PROGRAMS, ARGVS, HISTORIES
     combos = [(pg, av) for pg in PROGRAMS for av in ARGVS]
+    hist = [('hist:' + h, av) for h in HISTORIES for av in (('default', 'o', 'o_l', 'l_hex') if tier != 'thorough' else ARGVS)]
     if tier != 'thorough':
         keep = {('range', a) for a in ARGVS} | {(pg, 'o_l') for pg in PROGRAMS} | {(pg, 'l_hex') for pg in PROGRAMS} | \
                {('data', 'o_hex_bad'), ('li_label', 'hex_bad_l'), ('range', 'hex_sym'), ('li_label', 'hex_sym_l'), ('nolabels', 'defs_v'), ('nolabels', 'hex_sym_l'), ('needs_i', 'i_two'), ('needs_i', 'i_two_dup'), ('needs_i', 'i_dir'), ('needs_i', 'default'), ('ok_only', 'hex_sym'), ('included', 'i_dir'), ('ok_only', 'defs_v'), ('parse', 'i_bad'), ('li_label', 'default')}
         combos = [c for c in combos if c in keep]
-    specs = [('harness.cli', 'cli_task', c) for c in combos]
+    specs = [('harness.cli', 'cli_task', c) for c in combos + hist]
     res = pmap(specs)
     return finish('C17', tier, seed, res, t0,
                   bounds=dict(programs=len(PROGRAMS), option_sets=len(ARGVS), combinations=len(combos),
                               symbolic='a signed 40-bit operand in the program (decides which pass refuses it), the -c flag, and the value of --hex-offset (32-bit, any spelling)',
-                              old_files='bb.out, out.bin, labels.txt and both .hex files exist beforehand'),
+                              old_files='bb.out, out.bin, labels.txt and both .hex files exist beforehand',
+                              histories='the same command line run twice over a changed source (%s), judged after the second run' % ', '.join('%s: %s then %s' % (h, a, b) for h, (a, b) in HISTORIES.items())),
                   stubs=STUBS_ASM + ['virtual file system recording every open-for-write and write', 'intelhex.bin2hex replaced by a recorder (third-party code)',
                                      'a formatted symbolic integer is a token that records value and format spec', 'logging.basicConfig is a no-op'],
                   assumptions=['the Intel HEX encoding itself is third-party code: only the call (paths, offset, after the binary was written) is checked'] + STUBS_ASM,
